@@ -69,7 +69,21 @@ type c06Dev struct {
 	Full []string `json:"full"`
 }
 
+// the staged form of a tree (MC_Parse.Stage): one statement per operator application, then the value of the last;
+// FRuns: operand assignments outside the universe of the reference evaluation (decimal fractions)
+type c06Stage struct {
+	Steps []struct {
+		Tmp  string   `json:"tmp"`
+		Toks []string `json:"toks"`
+	} `json:"steps"`
+	Atom  []string `json:"atom"`
+	FRuns []c06Run `json:"fruns"`
+}
+
 type c06Case struct {
+	Fam   string     `json:"fam"`   // set by the harness
+	Gaps  []string   `json:"gaps"`  // the tight layout of Text: what stands between token i and i+1 ("" or " ")
+	Stage []c06Stage `json:"stage"` // none: the tree assigns
 	Text  []string   `json:"text"`
 	Full  []string   `json:"full"`
 	Exp   string     `json:"exp"`
@@ -229,6 +243,8 @@ func c06Literal(v c06Val) string {
 	switch v.K {
 	case "n":
 		return strconv.Itoa(v.N)
+	case "f":
+		return v.S
 	case "s":
 		return `"` + v.S + `"`
 	case "b":
@@ -316,7 +332,42 @@ func c06SubstSexpr(sx string, toks []string, run *c06Run, lits bool) string {
 // c06Program: every variable assigned first (comparisons with unset variables
 // are special: C05), the containers and functions the suffix operands use,
 // then the expression, then everything an assignment could have changed.
-func c06Program(expr string, run *c06Run) []byte {
+func c06Program(expr string, run *c06Run) []byte { return c06ProgramPre("", expr, run) }
+
+// c06Tight: the token sequence with the model's gaps between the tokens
+func c06Tight(toks, gaps []string) string {
+	if len(gaps) != len(toks)-1 {
+		infra("C06: %d gaps for %d tokens", len(gaps), len(toks))
+	}
+	var sb strings.Builder
+	for i, t := range toks {
+		if i > 0 {
+			sb.WriteString(gaps[i-1])
+		}
+		sb.WriteString(t)
+	}
+	return sb.String()
+}
+
+// the statements of the staged form and the expression that is left
+func (sg *c06Stage) program(run *c06Run) (string, string) {
+	var sb strings.Builder
+	for _, st := range sg.Steps {
+		sb.WriteString(st.Tmp + " = " + c06Layout(c06Subst(st.Toks, run, false)) + ";\n")
+	}
+	return sb.String(), c06Layout(c06Subst(sg.Atom, run, false))
+}
+
+func c06HasLogical(toks []string) bool {
+	for _, t := range toks {
+		if t == "&&" || t == "||" {
+			return true
+		}
+	}
+	return false
+}
+
+func c06ProgramPre(pre, expr string, run *c06Run) []byte {
 	var sb strings.Builder
 	sb.WriteString("function f(x) { return x + 1 }\nfunction g() { return f }\nBEGIN {\n")
 	names := []string{}
@@ -324,7 +375,8 @@ func c06Program(expr string, run *c06Run) []byte {
 		fmt.Fprintf(&sb, "%s = %s\n", c06VarNames[p], c06Literal(v))
 		names = append(names, c06VarNames[p])
 	}
-	sb.WriteString("o = {k: 7}\nr = [4, 9, 2]\nu = 9\nv = 4\nw = 1\n")
+	sb.WriteString("o = {k: 7}\nr = [4, 9, 2]\nu = 9\nv = 4\nw = 1;\n")
+	sb.WriteString(pre)
 	sb.WriteString("print " + expr + "\n")
 	sb.WriteString("print " + strings.Join(names, ", ") + "\n")
 	sb.WriteString("print o, r, u, v, w\n}\n")
@@ -357,7 +409,8 @@ func checkC06(c *Ctx) {
 	c.Assume("++ and -- are not ranked by the statement and do not occur in the vectors")
 	c.Assume("operands are variables (assigned first) and, for the first assignment of each tree, literals; numbers are small positive integers, one string, booleans; one operand of each operator single, pair and selected triple (both of a single) is in turn every other primary form: a regex literal, a string in single quotes, null, `$`, an array literal, an object literal, a match expression (families prim*); unset variables and more than one such primary among three or more operands are outside the enumeration")
 	c.Assume("the reference evaluation knows null and a regex value by the tables of DESIGN.md 3 (how a regex prints is not fixed: such outcomes are outside the evaluated universe); `$` (in BEGIN), array and object literals and match expressions have no reference value: trees with them are compared on their tree and on text against fully parenthesised form on the implementation only")
-	c.Assume("layout is fixed: single spaces around binary operators, none after a prefix operator (layout independence is C13; `3-1` is mis-lexed: F15)")
+	c.Assume("two layouts: single spaces around binary operators and none after a prefix operator; and, for the families bin1 lvl3 pre1 prepre presuf suf1 sufsuf inner, the tight layout (MC_Parse.Gaps: no blank wherever JqLex reads the same tokens without it; texts with `/` after an object literal or match expression keep their blanks); every other layout is C13")
+	c.Assume("staged evaluation (families bin1 bin2 lvl3 pre1 prepre presuf suf1 sufsuf inner, trees without assignment): one statement per operator application; member, index and call sub-expressions are not opened (written fully parenthesised inside a step); where the staged program fails and the tree has && or || nothing is judged; decimal-fraction operands 1.1 0.1 0.7 0.3 2.5 3 are outside the reference evaluation and are used only implementation against implementation")
 	c.Assume("whether `a + b += c` (compound assignment to a non-assignable target) is refused statically is not compared (C11); for `=` the refusal is compared because it is what `=` binding loosest means")
 	c.Assume("the reference evaluation (MC_Parse.Ev) chooses operands and is a verdict in one way only: a fully parenthesised text that prints, not the value of its own grouping, but exactly the value and variables the reference gives ANOTHER grouping of the same tokens (both inside the evaluated universe and different) was evaluated as that other grouping; a value matching neither is an operator question (C05), reported as model_value_disagree, not judged; runtime errors are never matched this way")
 	c.Assume("operator sequences longer than 3 are sampled (family deep, from the seed) or restricted to assignment chains (chain4)")
@@ -365,7 +418,7 @@ func checkC06(c *Ctx) {
 	c.Assume("expression sites: the 24 places of JqParse.ExprSites (print arguments, conditions, the three for clauses, for-in, expression statement, call arguments, array items, object values, index, match subject and case body, group, return, rule pattern with and without a body); an expression that starts with `{` is not placed where the statement grammar reads `{` as a block; the case PATTERNS of match (a restricted pattern syntax) and selectors given on the command line are not sites; at a site the value is compared on the first operand assignment only")
 	pool := c.Pool()
 
-	fams := []string{"bin1", "bin2", "bin3", "pre1", "pre2", "prepre", "presuf", "suf1", "sufsuf", "inner", "chain4", "deep", "prim1", "prim2", "prim3", "preprim", "iskw", "neg"}
+	fams := []string{"lvl3", "bin1", "bin2", "bin3", "pre1", "pre2", "prepre", "presuf", "suf1", "sufsuf", "inner", "chain4", "deep", "prim1", "prim2", "prim3", "preprim", "iskw", "neg"}
 	// families whose every tree is placed at every expression site (the trees of the others: at one site each)
 	siteAll := []string{"bin1", "pre1", "prepre", "presuf", "suf1", "bin2"}
 	mod, ndeep, pmod, siteMod := 3, 96, 192, 3
@@ -376,9 +429,14 @@ func checkC06(c *Ctx) {
 		mod, ndeep, pmod = 1, 4000, 8
 	}
 
+	if f := os.Getenv("VERIF_C06_FAMS"); f != "" { // development only: a subset of the families
+		fams = strings.Split(f, ",")
+	}
+
 	famCount := map[string]int{}
 	var nCases, nAlt, nDiscModel, nDiscImpl, nAltImplRun, nRuns, nTreeOnly int
 	var modelAgree, modelDisagree, modelUnknown, nRegrouped, nRegroupChecks, nBare, nSiteRuns int
+	var nTight, nStaged, nStagedFloat, nStagedSkipped, nFloatAlt, nFloatDisc int
 	siteCount := map[string]int{}
 	var siteTable []c06Site // JqParse.ExprSites, sent once by the model (vector of family neg); cases wait for it
 	var siteMu sync.Mutex
@@ -503,6 +561,81 @@ func checkC06(c *Ctx) {
 					"got_text": ot, "got_reference": or,
 					"why": "the expression at this place of the statement grammar behaves differently from its fully parenthesised form evaluated first (into z8) with the bare variable at the same place"}))
 				return
+			}
+		}
+
+		// ---- (e) the tight layout: no blank wherever the lexer model reads the same tokens without it
+		if r, ok := at("sx-tight"); ok {
+			src := c06Tight(c06Subst(cs.Text, run0, false), cs.Gaps)
+			want := c06SubstSexpr(cs.Exp, cs.Text, run0, false)
+			if !skipTree && !(r.Class == "ok" && r.Sexpr == want) {
+				c.Violation("tree-sx-tight", rep(map[string]any{"source": src, "got_class": r.Class, "got_tree": r.Sexpr, "want_tree": want, "got_msg": r.ErrMsg,
+					"why": "written without the blanks the lexer does not need (JqLex reads the same tokens) the text is not parsed as the tree of the grammar: what binds tightest depends on the layout"}))
+				return
+			}
+			rt, ok1 := at("run0-tight")
+			rf, ok2 := at("run0-full")
+			if ok1 && ok2 {
+				nTight++
+				if ot, of := c06Observe(rt), c06Observe(rf); ot != of {
+					c.Violation("value-tight", rep(map[string]any{"operands": run0.Vals, "types": run0.Tys, "source": src,
+						"program_text": string(c06Program(src, run0)), "program_full": string(c06Program(c06Layout(c06Subst(cs.Full, run0, false)), run0)),
+						"got_text": ot, "got_full": of,
+						"why": "written without the blanks the lexer does not need the expression and its fully parenthesised form print different things"}))
+					return
+				}
+			}
+		}
+		// ---- (f) staged evaluation: the grouping imposed by one statement per operator application; where that
+		// program runs (always, if the tree has no && ||), the fully parenthesised expression must print the same
+		if len(cs.Stage) > 0 {
+			sg := &cs.Stage[0]
+			logical := c06HasLogical(cs.Text)
+			pairs := []struct {
+				label string
+				run   *c06Run
+				float bool
+			}{{"run0", run0, false}}
+			for k := range sg.FRuns {
+				pairs = append(pairs, struct {
+					label string
+					run   *c06Run
+					float bool
+				}{fmt.Sprintf("frun%d", k), &sg.FRuns[k], true})
+			}
+			for _, p := range pairs {
+				rf, ok1 := at(p.label + "-full")
+				rs, ok2 := at(p.label + "-staged")
+				if !ok1 || !ok2 {
+					continue
+				}
+				if rs.Class != "ok" && logical {
+					nStagedSkipped++
+					continue
+				}
+				nStaged++
+				if p.float {
+					nStagedFloat++
+				}
+				if os, of := c06Observe(rs), c06Observe(rf); os != of {
+					pre, atom := sg.program(p.run)
+					c.Violation("evaluated-not-as-staged", rep(map[string]any{"operands": c06Literals(p.run.Vals), "types": p.run.Tys,
+						"program_full":   string(c06Program(c06Layout(c06Subst(cs.Full, p.run, false)), p.run)),
+						"program_staged": string(c06ProgramPre(pre, atom, p.run)),
+						"got_full":       of, "got_staged": os,
+						"why": "the fully parenthesised expression does not print what the same operator applications print when each is a statement of its own, in the order and with the operands the parentheses prescribe: the evaluator did not honour the grouping"}))
+					return
+				}
+				if p.float {
+					for x := range cs.Alts {
+						if ra, ok := at(fmt.Sprintf("%s-alt%d", p.label, x)); ok {
+							nFloatAlt++
+							if c06Observe(ra) != c06Observe(rf) {
+								nFloatDisc++
+							}
+						}
+					}
+				}
 			}
 		}
 
@@ -721,6 +854,7 @@ func checkC06(c *Ctx) {
 			if len(cs.Runs) == 0 {
 				infra("C06: vector without operand assignment: %s", c06Layout(cs.Text))
 			}
+			cs.Fam = v.Fam
 			plan := c06CasePlan(cs, siteTable, false)
 			b, _ := json.Marshal(cs)
 			st.Submit(Job{Kind: "history", Hist: plan.jobs, Tag: "case\x00" + v.Fam + "\x00" + string(b)})
@@ -761,6 +895,10 @@ func checkC06(c *Ctx) {
 	st.Wait()
 	if len(problems) > 0 {
 		infra("%s", strings.Join(problems, "\n"))
+	}
+
+	if os.Getenv("VERIF_C06_ONLY") == "" || os.Getenv("VERIF_C06_ONLY") == "deep" {
+		c06Deep(c, pool)
 	}
 
 	// one deterministic witness per deviation
@@ -806,6 +944,12 @@ func checkC06(c *Ctx) {
 	c.Set("site_program_pairs_by_site", siteCount)
 	c.Set("families_at_every_site", siteAll)
 	c.Set("other_trees_at_one_site_one_in", siteMod)
+	c.Set("tight_layout_program_pairs_compared", nTight)
+	c.Set("staged_program_pairs_compared", nStaged)
+	c.Set("staged_program_pairs_with_fraction_operands", nStagedFloat)
+	c.Set("staged_program_fails_with_logical_operator_not_judged", nStagedSkipped)
+	c.Set("fraction_operands_alternative_groupings_run", nFloatAlt)
+	c.Set("fraction_operands_alternative_groupings_told_apart_on_impl", nFloatDisc)
 	c.Set("alternative_groupings", nAlt)
 	c.Set("alternatives_told_apart_by_model_operands", nDiscModel)
 	c.Set("alternatives_told_apart_on_impl", nDiscImpl)
@@ -919,6 +1063,37 @@ func c06CasePlan(cs *c06Case, sites []c06Site, labelsOnly bool) *c06Plan {
 		p.add(fmt.Sprintf("site%d-sx-full", k), tree(siteFull))
 		p.add(fmt.Sprintf("site%d-text", k), func() Job { return site.valueProgram(siteText, "", run0) })
 		p.add(fmt.Sprintf("site%d-ref", k), func() Job { return site.valueProgram(siteText, siteFull, run0) })
+	}
+	// the tight layout (the tree, and the value under the first operand assignment)
+	if len(cs.Gaps) > 0 {
+		toks := c06Subst(cs.Text, run0, false)
+		if tight := c06Tight(toks, cs.Gaps); tight != c06Layout(toks) {
+			p.add("sx-tight", func() Job { return Job{Kind: "sexpr", Prog: []byte(tight)} })
+			p.add("run0-tight", func() Job { return Job{Kind: "run", Prog: c06Program(tight, run0)} })
+		}
+	}
+	// the staged form under the first operand assignment and under the operands outside the reference universe
+	if len(cs.Stage) > 0 {
+		sg := &cs.Stage[0]
+		staged := func(label string, run *c06Run) {
+			p.add(label, func() Job {
+				pre, atom := sg.program(run)
+				return Job{Kind: "run", Prog: c06ProgramPre(pre, atom, run)}
+			})
+		}
+		staged("run0-staged", run0)
+		for k := range sg.FRuns {
+			run := &sg.FRuns[k]
+			p.add(fmt.Sprintf("frun%d-full", k), func() Job { return Job{Kind: "run", Prog: c06Program(c06Layout(c06Subst(cs.Full, run, false)), run)} })
+			staged(fmt.Sprintf("frun%d-staged", k), run)
+			if cs.Fam == "lvl3" || cs.Fam == "bin2" {
+				// evidence: which other groupings these operands tell apart on the implementation
+				for x, alt := range cs.Alts {
+					alt := alt
+					p.add(fmt.Sprintf("frun%d-alt%d", k, x), func() Job { return Job{Kind: "run", Prog: c06Program(c06Layout(c06Subst(alt, run, false)), run)} })
+				}
+			}
+		}
 	}
 	for q := range cs.Runs {
 		run := &cs.Runs[q]
